@@ -933,3 +933,17 @@ package process
 //@   ensures C15.termBranchesFrame: buffersKept()
 //@   loop 1 invariant bufstr[addrof(buf)] == ppBranches(branches, idx + 1) + ite(0 <= idx && idx < len(branches) - 1, " | ", "")
 //@   loop 1 invariant buffersKept()
+
+// C07, converse for three axiomatic rules: if the premises hold (and the context holds nothing else) the term is accepted
+//@ contract (*CloseForm).typecheckForm
+//@   ensures[C07] C07.closeComplete: old(isProv(p.from_c.Ident, p.from_c.IsSelf, providerShadowName) && is(unf(providerType, labelledTypesEnv), types.UnitType) && noPol(p.from_c) && len(gammaNameTypesCtx) == 0) ==> result == nil
+//@ macro premSend(p *SendForm, g NamesTypesCtx, sh *Name, A types.SessionType, env types.LabelledTypesEnv) bool =
+//@    stepSend(p, g, sh, A, env) && noPol(p.to_c) && noPol(p.payload_c) && noPol(p.continuation_c) && len(g) == 2 && !p.payload_c.IsSelf &&
+//@    ite(isProv(p.to_c.Ident, p.to_c.IsSelf, sh), !p.continuation_c.IsSelf && p.payload_c.Ident != p.continuation_c.Ident, !p.to_c.IsSelf && p.to_c.Ident != p.payload_c.Ident)
+//@ contract (*SendForm).typecheckForm
+//@   ensures[C07] C07.sendComplete: old(premSend(p, gammaNameTypesCtx, providerShadowName, providerType, labelledTypesEnv)) ==> result == nil
+//@ macro premSelect(p *SelectForm, g NamesTypesCtx, sh *Name, A types.SessionType, env types.LabelledTypesEnv) bool =
+//@    stepSelect(p, g, sh, A, env) && noPol(p.to_c) && noPol(p.continuation_c) && len(g) == 1 &&
+//@    ite(isProv(p.to_c.Ident, p.to_c.IsSelf, sh), !p.continuation_c.IsSelf, !p.to_c.IsSelf)
+//@ contract (*SelectForm).typecheckForm
+//@   ensures[C07] C07.selectComplete: old(premSelect(p, gammaNameTypesCtx, providerShadowName, providerType, labelledTypesEnv)) ==> result == nil
